@@ -272,9 +272,17 @@ class SamplerCore:
             print(f"Error while saving state: {e}")
             raise
 
-        # Save to file
-        with open(path, "wb") as f:
+        # Save to file atomically: write a temporary file in the same directory,
+        # flush it to disk, then rename it over the final name, so a crash during
+        # the save never leaves a truncated checkpoint under the final name
+        import os
+
+        temp_path = path.with_name(path.name + ".temp")
+        with open(temp_path, "wb") as f:
             dill.dump(d, f)
+            f.flush()
+            os.fsync(f.fileno())
+        os.replace(temp_path, path)
 
     def load_sampler_state(self, path: Union[str, Path]):
         """Load state (replaces Sampler.load_state - 28 lines)."""
